@@ -68,6 +68,11 @@ def main():
                                 viol.append({"prop": "C13", "what": "provider asked again for %s %d by solve #%d on the same solver" % (
                                     "candidates of package" if c[0] == 0 else "dependencies of solvable", c[1], pi + 1)})
                             all_calls.append(c)
+                    if pi == 0 and u.get("async_policies"):
+                        runs = o.get("async") or []
+                        if any(r.get("max_in_flight", 0) >= 2 for r in runs):
+                            tags.add("C10")
+                        viol += cert.check_async(u, p, res, runs, st)
                     if pi == 0 and u.get("snapshot"):
                         tags.add("C16")
                         viol += cert.check_snapshot(u, p, res, o.get("snapshot"), st)
@@ -84,7 +89,7 @@ def main():
         "universes": sum(fam_counts.values()), "families": fam_counts, "profiles": [p for p in ("dev", "release") if p in bins],
         "solves": st.solves, "verdicts": st.verdicts, "queries": st.queries, "by_kind": st.by_kind,
         "learnt_clauses": st.learnt_clauses, "graphs": st.graphs, "solver_time": round(st.solver_time, 2),
-        "relevant": len(relevant), "hangs": n_hangs[0], "samples": samples, "violations": violations[:200],
+        "relevant": len(relevant), "hangs": n_hangs[0], "cvc5_cross_checked": getattr(st, "cvc5_checked", 0), "samples": samples, "violations": violations[:200],
     }
     print(json.dumps(out))
 
